@@ -13,7 +13,11 @@ run_one() {
   git -C /repo worktree add -q --detach "$wt" HEAD 2>/dev/null || { echo "SKIP  $p/$n (worktree)"; return; }
   if ! git -C "$wt" apply "$f" 2>/dev/null; then echo "SKIP  $p/$n (does not apply)"; git -C /repo worktree remove --force "$wt"; return; fi
   if ! (cd "$wt" && go build . >/dev/null 2>&1); then echo "SKIP  $p/$n (does not build)"; git -C /repo worktree remove --force "$wt"; return; fi
-  for q in $p C01; do
+  # BENIGN_C01=new: the whole-package safety check (C01, the slowest one) only for the patches of the later
+  # waves (benign-4 and up); default: for every patch
+  qs="$p C01"
+  if [ "$BENIGN_C01" = "new" ] && [ "${n#benign-}" -lt 4 ]; then qs="$p"; fi
+  for q in $qs; do
     out=$(/verif/bin/govc check -repo "$wt" -prop "$q" -tier quick 2>&1); r=$?
     if [ $r -eq 0 ]; then echo "QUIET $p/$n under $q: $(echo "$out" | tail -1 | cut -c1-110)"; else echo "ALARM $p/$n under $q (exit $r): $(echo "$out" | grep '^VIOLATION' | head -2 | cut -c1-260)"; fi
     [ "$p" = "C01" ] && break
